@@ -34,7 +34,7 @@ def reset():
     HOOKS.clear()
     USED.clear()
     symnp.EXTERNAL_STUBS.clear()
-    for n in ("lstsq", "eigh", "solve", "unique", "lexsort", "argsort", "linspace"):
+    for n in ("lstsq", "eigh", "solve", "unique", "lexsort", "argsort", "linspace", "random.uniform"):
         symnp.EXTERNAL_STUBS[n] = _hook(f"numpy.{n}")
     install_defaults()
 
